@@ -130,8 +130,18 @@ func drawCallCase(t *rapid.T) CallCase {
 		n = rapid.IntRange(0, maxAr+1).Draw(t, "n")
 	}
 	args := make([]gen.V, n)
-	for i := range args {
-		args[i] = gen.Value(t, fmt.Sprintf("arg%d", i), 2)
+	aimed := false
+	if _, has := roles[name]; has && n > 0 && rapid.IntRange(0, 2).Draw(t, "aimed") == 0 {
+		args, aimed = aimedArgs(t, name, n)
+		// one position may still be uniform (a related tuple with one foreign value)
+		if aimed && rapid.IntRange(0, 3).Draw(t, "oneuniform") == 0 {
+			args[rapid.IntRange(0, n-1).Draw(t, "uniformpos")] = gen.Value(t, "uniformarg", 2)
+		}
+	}
+	if !aimed {
+		for i := range args {
+			args[i] = gen.Value(t, fmt.Sprintf("arg%d", i), 2)
+		}
 	}
 	env := json.RawMessage(nil)
 	if rapid.Bool().Draw(t, "customenv") {
